@@ -25,6 +25,7 @@ def run(ctx):
     monotone(ctx, "R2")
     text(ctx, "R3")
     text_model(ctx, "R4")
+    tld_table(ctx, "R5")
 
 
 def languages(ctx, rule):
@@ -397,3 +398,50 @@ def text_model(ctx, rule):
                 problems.append("%r is not matched by URL_WITH_PROTOCOL_RE" % u)
         ctx.ob(rule, "urls_from_text/%r" % text[:40], not problems, "urls_from_text(%r) yields %r: %s" % (text, got, "; ".join(problems)), site, witness=text, sample="%r -> %r" % (text[:30], got))
     ctx.require_instances(rule, n, len(TEXT_CELLS), "text cells")
+
+
+# ----------------------------------------------------------------------
+TLD_MINI = {"com", "uk", "fr", "\u0440\u0444"}
+TLD_HOSTS = [
+    ("http://a.com", True), ("a.com", True), ("A.COM", True), ("http://b.a.co.uk/path.zz", True), ("a.fr:8080", True), ("http://u:p@a.fr:8080/", True),
+    ("http://a.onion/", False), ("a.onion", False), ("b.a.onion", False), ("a.zz", False), ("http://a.com.zz/x.com", False), ("http://a.zz/?u=b.com", False),
+    ("a.xn--p1ai", True), ("\u043a\u0442\u043e.\u0440\u0444", True), ("a.xn--zz-abc", False), ("", False), ("/path", False), ("http://", False), ("com", True), ("onion", False), ("zz", False),
+]
+TLD_LABELS = [("com", True), (".com", True), ("COM", True), ("onion", False), ("zz", False), ("xn--p1ai", True), ("\u0440\u0444", True), ("co.uk", False), ("", False)]
+
+
+def tld_table(ctx, rule):
+    ctx.rule(rule, "model table: tld.has_valid_tld / tld.is_valid_tld, interpreted (finite-domain interpreter) with the TLD table replaced by {com, uk, fr, рф} and the suffix trie by a miniature one that also knows `onion` (a public suffix that is not a TLD), answer `last label of the host, lower-cased and idna-decoded, is in the TLD table` on every host class {known / unknown TLD, upper case, nested suffix, port, userinfo, known suffix that is no TLD, TLD only in the path or the query, punycode / unicode TLD, no host, bare label}")
+    from ..microeval import run_function, Raised
+    from ..srcmodel import Unknown
+    from .c08 import mini_trie
+    repo = ctx.repo
+    tld = repo.mod("tld")
+    try:
+        trie = mini_trie(repo, [("onion", False)])
+    except (Unknown, Raised) as e:
+        ctx.undecided(rule, "SuffixTrie construction not interpretable: %s" % e)
+        return
+    repo.global_overrides = {"ural.tld.SUFFIX_TRIE": trie, "ural.tld.TLD_SET": set(TLD_MINI)}
+    n = 0
+    try:
+        for fname, cells in (("has_valid_tld", TLD_HOSTS), ("is_valid_tld", TLD_LABELS)):
+            fref = tld.func(fname)
+            if fref is None:
+                raise AnalysisError("tld.%s not found" % fname)
+            ctx.fn(fref.qualname)
+            for arg, exp in cells:
+                try:
+                    got = run_function(repo, fref, [arg])
+                except Raised as e:
+                    got = "raises %s" % e.name
+                except Unknown as e:
+                    ctx.undecided(rule, "tld.%s(%r): %s" % (fname, arg, e))
+                    continue
+                n += 1
+                ctx.ob(rule, "%s/%s" % (fname, arg), got is exp or (got == exp and isinstance(got, bool)),
+                       "with the TLD table {com, uk, fr, рф}, tld.%s(%r) gives %r; the last label of the host %s a known TLD, so the answer is %r" % (fname, arg, got, "is" if exp else "is not", exp),
+                       tld.site(fref.node), witness=arg, sample="%s(%r) -> %r" % (fname, arg, got))
+    finally:
+        repo.global_overrides = {}
+    ctx.require_instances(rule, n, len(TLD_HOSTS) + len(TLD_LABELS) - 4, "(function, argument) cells")
